@@ -162,11 +162,12 @@ void SHA1::transform(const byte buf[64])
 
 void SHA1::update(const byte* data, int len)
 {
-	int j = count[0], i = 0;
-	if ((count[0] += (len << 3)) < j)
+	uint32_t j0 = count[0];
+	int j, i = 0;
+	if ((count[0] += ((uint32_t)len << 3)) < j0)
 		count[1]++;
-	count[1] += (len >> 29);
-	j = (j >> 3) & 63;
+	count[1] += ((uint32_t)len >> 29);
+	j = (int)((j0 >> 3) & 63);
 	if ((j + len) > 63)
 	{
 		memcpy(&buffer[j], data, (i = 64 - j));
